@@ -18,7 +18,7 @@ def parseLKey (s : String) : Option Key :=
 
 def parseFile (s : String) : Option FileState :=
   if s == "abs" then some .absent
-  else if s == "bad" then some .unparsable
+  else if s == "bad" || s == "empty" || s == "ws" || s == "comment" then some .unparsable
   else if s == "dir" then some .unreadable
   else if s.startsWith "key:" then (parseLKey (s.drop 4).toString).map FileState.key
   else none
@@ -67,6 +67,9 @@ def parseCA (s : String) : Option (List CAReply) :=
     | ["foreign"] => some .foreign
     | ["plain"] => some .plainKey
     | ["err"] => some .err
+    -- the real crypki signer against an unreachable CA / with a finished request context: a failing CA
+    | ["realdown"] => some .err
+    | ["realdead"] => some .err
     | ["panic"] => some .panic
     | _ => none
 
